@@ -35,5 +35,6 @@ Definition topic_suffix (t : topic) : string :=
   | TStatus s => itoa s
   | TDelete => "delete"
   | TRunStateChange => "run-state-change"
+  | TConn c => "connector-source-" ++ itoa (Z.of_N c)   (* a connector's event source is not a stream topic; the name is the model's own *)
   end.
 Definition topic_str (name : string) (t : topic) : string := replace_space name ++ "-" ++ topic_suffix t.
